@@ -1,6 +1,7 @@
 import OmplModel.Proofs.SpaceDistLaws
 import OmplModel.Proofs.SpaceDistDom
 import OmplModel.Proofs.SpaceDistSO3Code
+import OmplModel.Proofs.SpaceDistSphereLaws
 import OmplModel.Generated.Claims
 /-!
 # C06 — state-space distances obey the metric laws each space claims
@@ -220,6 +221,38 @@ theorem klein_glued_points_distance_zero :
       rw [zero_sub, abs_neg, abs_of_pos hpi, eps_real]
       linarith [Real.pi_gt_three]
     rw [if_pos this]
+
+/-- the coded haversine expression (over ℝ) IS the great-circle distance: `r` times the angle between the unit
+vectors `u(θ,φ) = (sin φ cos θ, sin φ sin θ, cos φ)` of the two states. -/
+theorem sphere_haversine_is_angle (r : ℝ) (a b : St ℝ) (ha : inDom (.sphere r) a) (hb : inDom (.sphere r) b) :
+    SpaceDist.dist (.sphere r) a b = r * InnerProductGeometry.angle (sphereVec a) (sphereVec b) :=
+  sphere_is_angle r a b ha hb
+
+/-- hence the REAL formula is a metric on the points of the sphere, bounded by `π·r`: non-negative, zero to itself,
+symmetric, triangle inequality, zero exactly between states with the same unit vector, and positive w.r.t. the code's
+own `equalStates` whenever one of the states is off the poles.
+`_partial` w.r.t. the property: (i) at the poles many (θ, φ) share one point, so distinct-by-`equalStates` states are at
+distance 0 (`sphere_pole_distance_zero`, F12 first half); (ii) the bound is `π·r`, not the reported extent `2π`
+(`sphere_extent_exceeded`); (iii) the code evaluates the formula in float32 — rounding is a finding, not a theorem. -/
+theorem sphere_real_metric_partial (r : ℝ) (hr : 0 < r) :
+    (∀ a b, inDom (.sphere r) a → inDom (.sphere r) b → 0 ≤ SpaceDist.dist (.sphere r) a b) ∧
+    (∀ a, inDom (.sphere r) a → SpaceDist.dist (.sphere r) a a = 0) ∧
+    (∀ a b, inDom (.sphere r) a → inDom (.sphere r) b → SpaceDist.dist (.sphere r) a b = SpaceDist.dist (.sphere r) b a) ∧
+    (∀ a b c, inDom (.sphere r) a → inDom (.sphere r) b → inDom (.sphere r) c →
+      SpaceDist.dist (.sphere r) a c ≤ SpaceDist.dist (.sphere r) a b + SpaceDist.dist (.sphere r) b c) ∧
+    (∀ a b, inDom (.sphere r) a → inDom (.sphere r) b → SpaceDist.dist (.sphere r) a b ≤ Real.pi * r) ∧
+    (∀ a b, inDom (.sphere r) a → inDom (.sphere r) b →
+      (SpaceDist.dist (.sphere r) a b = 0 ↔ sphereVec a = sphereVec b)) ∧
+    (∀ a b, inDom (.sphere r) a → inDom (.sphere r) b → sphereOffPole a → equalStates (.sphere r) a b = false →
+      0 < SpaceDist.dist (.sphere r) a b) :=
+  ⟨fun a b ha hb => sphere_nonneg' hr.le a b ha hb, fun a ha => sphere_self' r a ha,
+    fun a b ha hb => sphere_symm' r a b ha hb, fun a b c ha hb hc => sphere_triangle' hr.le a b c ha hb hc,
+    fun a b ha hb => sphere_le_pi_r' hr.le a b ha hb, fun a b ha hb => sphere_zero_iff' hr a b ha hb,
+    fun a b ha hb hoff hne => sphere_pos_off_pole hr a b ha hb hoff hne⟩
+example : inDom (.sphere 3 : Space ℝ) (.ccons (.so2 0) (.ccons (.rv [1]) .cnil)) ∧
+    sphereOffPole (.ccons (.so2 0) (.ccons (.rv [(1:ℝ)]) .cnil)) := by
+  refine ⟨⟨?_, by norm_num, by linarith [Real.pi_gt_three]⟩, by norm_num, by linarith [Real.pi_gt_three]⟩
+  rw [so2InBounds_real]; constructor <;> linarith [Real.pi_pos]
 
 /-- F12: on the sphere (real haversine formula) all states with φ = 0 are at distance 0 from each other although
 `equalStates` distinguishes them … -/
